@@ -113,6 +113,39 @@ theorem prune_keeps_function (b : Bdd α) (new : List α) (hb : b.WF) (hnew : St
   prune_den b new hb hnew hsub hess
 end
 
+/-! ### consequences: the fixed variables no longer matter; the representations restrict alike -/
+
+/-- the restricted function no longer depends on the fixed variables -/
+theorem expr_restrict_independent (v : PVal α) (e : Expr α) (ρ σ : α → Bool)
+    (h : ∀ x, x ∉ v.keys → ρ x = σ x) : (e.restrict v).den ρ = (e.restrict v).den σ :=
+  Expr.den_congr ρ σ _ (fun x hx => h x (((expr_restrict v e).2 x).mp hx).2)
+
+section
+variable [Ord α]
+theorem table_restrict_independent (v : PVal α) (t : Table α) (ht : t.WF) (ρ σ : α → Bool)
+    (h : ∀ x, x ∉ v.keys → ρ x = σ x) : (t.restrict v).den ρ = (t.restrict v).den σ :=
+  Table.den_congr ρ σ _ (fun x hx => h x (((table_restrict v t ht).2.1 x).mp hx).2)
+end
+
+section
+variable [Ord α] [Std.TransOrd α] [Std.LawfulEqOrd α]
+theorem bdd_restrict_independent (v : PVal α) (hv : (v.map (·.1)).Nodup) (b : Bdd α) (hb : b.WF) :
+    ∃ b', Bdd.restrict v b = .ok b' ∧
+      ∀ ρ σ : α → Bool, (∀ x, x ∉ v.keys → ρ x = σ x) → b'.den ρ = b'.den σ := by
+  obtain ⟨b', h1, _, h3, _⟩ := bdd_restrict v hv b hb
+  exact ⟨b', h1, fun ρ σ h => Bdd.den_congr b' ρ σ (fun x hx => h x ((h3 x).mp hx).2)⟩
+
+/-- the three representations restrict alike: if they denote the same function before, they do after -/
+theorem restrict_agree (v : PVal α) (hv : (v.map (·.1)).Nodup) (e : Expr α) (t : Table α) (b : Bdd α)
+    (ht : t.WF) (hb : b.WF) (het : ∀ ρ, e.den ρ = t.den ρ) (heb : ∀ ρ, e.den ρ = b.den ρ) :
+    ∃ b', Bdd.restrict v b = .ok b' ∧
+      ∀ ρ, (e.restrict v).den ρ = (t.restrict v).den ρ ∧ (e.restrict v).den ρ = b'.den ρ := by
+  obtain ⟨b', h1, _, _, h4⟩ := bdd_restrict v hv b hb
+  refine ⟨b', h1, fun ρ => ⟨?_, ?_⟩⟩
+  · rw [(expr_restrict v e).1, (table_restrict v t ht).2.2, het]
+  · rw [(expr_restrict v e).1, h4, heb]
+end
+
 /-- non-vacuity: two inputs fixed plus a foreign key on a three-input table -/
 example : (Table.restrict [(1, true), (2, true), (9, false)]
     (⟨[1, 2, 3], [false, false, false, true, false, true, true, true]⟩ : Table Nat)) = ⟨[3], [true, true]⟩ := by decide
